@@ -176,6 +176,18 @@ func oracleC04(l *harness.Live) (c04Info, *harness.Failure) {
 
 // anyExpr draws from the union of all fragments; nodeSet tells whether Select is meaningful.
 func anyExpr(g *xgen.G, rt *rapid.T, ctx *xdoc.Node) (e xast.Expr, nodeSet bool) {
+	if rapid.IntRange(0, 24).Draw(rt, "toplevel-position") == 24 {
+		// position() / last() with no step in front of them: whatever the builder remembers
+		// from the previous step (of this or of an earlier compilation) is what they consult
+		f := &xast.Call{Name: rapid.SampledFrom([]string{"position", "last"}).Draw(rt, "posfn")}
+		switch rapid.IntRange(0, 2).Draw(rt, "posform") {
+		case 0:
+			return f, false
+		case 1:
+			return &xast.Bin{Op: "+", L: f, R: &xast.Num{Lit: "1"}}, false
+		}
+		return &xast.Call{Name: "string", Args: []xast.Expr{f}}, false
+	}
 	switch rapid.IntRange(0, 16).Draw(rt, "anyfrag") {
 	case 10, 11, 12, 13:
 		// unconstrained expression: predicates in any order, nested filters, any operand types
@@ -223,6 +235,10 @@ func anyExpr(g *xgen.G, rt *rapid.T, ctx *xdoc.Node) (e xast.Expr, nodeSet bool)
 			}
 		}
 		p = pp
+	}
+	if rapid.IntRange(0, 5).Draw(rt, "revarg") == 5 {
+		// the argument as a node-set FUNCTION (statically typed "any", like a scalar function call)
+		p = &xast.Call{Name: "reverse", Args: []xast.Expr{p}}
 	}
 	switch rapid.IntRange(0, 10).Draw(rt, "wrap") {
 	case 7:
